@@ -30,6 +30,7 @@ RULE = (
     "contain the twin's locked nodes.  SQL materializations are also re-applied (reapply) to a bare, not Select-rooted "
     "operand taken from Select.target / skip_to, and tree-building calls (deduplication, slice, selection, "
     "projection, materialized, Engine.conform) on the resulting locked node must return trees that contain it. "
+    "  Every tree is also handed to a real Processor: a materialization with no transfer upstream of it must be part of the returned tree as the identical object. "
 )
 ASSUMPTIONS = [
     "leaf and materialization names are unique within a case, so (type, name) identifies a locked node",
@@ -213,6 +214,28 @@ def run_case(case):
                 c["calls_on_bare_markers_checked"] = c.get("calls_on_bare_markers_checked", 0) + 1
                 if not any(n is mb for n in interp.walk(res)):
                     out["violations"].append({"kind": "locked_node_rewritten", "detail": f"{model.show(sub)}: {cname} on a materialization re-applied to a bare operand returned {short(res, 300)}, which no longer contains that node (payload-carrying nodes must never be copied)"})
+        # ---- Processor.process: a materialization with nothing to rewrite upstream (no transfer below
+        # it) is a locked node that the returned tree must contain as the identical object
+        try:
+            mats_before = [n for n in interp.walk(base) if isinstance(n, R.Materialization) and not any(isinstance(k, R.Transfer) for k in interp.walk(n.target))]
+            if mats_before:
+                from ..dbx import VProcessor
+
+                processed = VProcessor(db).process(base)
+                by_name = {}
+                for n in interp.walk(processed):
+                    if isinstance(n, R.Materialization):
+                        by_name.setdefault(n.name, []).append(n)
+                for m0 in mats_before:
+                    c["materializations_followed_through_process"] = c.get("materializations_followed_through_process", 0) + 1
+                    same_name = by_name.get(m0.name, [])
+                    if same_name and not any(x is m0 for x in same_name):
+                        out["violations"].append({"kind": "processor_replaced_locked_materialization", "detail": f"{model.show(case['prog'])}: {short(m0, 160)} has no transfer upstream, yet the processed tree holds an equal but distinct object in its place"})
+        except R.RelationalAlgebraError:
+            pass
+        except Exception as exc:  # noqa: BLE001
+            if "Joins are not supported" not in str(exc):
+                c["process_failed_counted_only"] = c.get("process_failed_counted_only", 0) + 1
         # ---- content of root round trips
         m = model.Model(case["leaves"], sql_slices=True, key_dedup=True, strict_fragile=True, ordered_engines=("it", "it2"))
         try:
